@@ -16,9 +16,12 @@ EXTENDS DrawGeom
 CONSTANTS MaxWord,      \* maximal length of the transformation word
           MaxVerts,     \* maximal number of points of a scene
           Core          \* 1: the small set of special points, 2: all special points, 3: special points, band points and
-                        \* the whole box universe of HypCoords, 4: the band points (triangles only over a band pair)
+                        \* the whole box universe of HypCoords, 4: the band points (triangles only over a band pair),
+                        \* 5: drawings with custom windows and points outside the default window,
+                        \* 6: all words in three non-commuting atoms on two points
 
-VARIABLES word, verts, last
+VARIABLES word, verts, last,
+          win       \* the window <<xmin, xmax, ymax>> the drawing is constructed with (xlim, ylim); default <<-6, 6, 8>>
 
 P3(a, b, c) == <<a, b, c>>
 \* hand-picked points: the origin, antipodal pairs (edges through the origin), points on one vertical of the
@@ -42,27 +45,37 @@ BandPair(x, y) == \E m \in {"poincare", "halfplane"} :
                     DgDefined(m, x) /\ DgDefined(m, y) /\ DgInView(m, x) /\ DgInView(m, y) /\ DgInBand(m, DgNormal(x, y))
 BandThird == {P3(5, 4, 0), P3(9, 7, 4), P3(13, 3, 4)}          \* Core = 4: third vertices of the triangles over a band pair
 Universe == HC!Points                      \* the box universe: quantifier domain of the theorems
-Pts == CASE Core = 1 -> SpecialSmall [] Core = 2 -> Special [] Core = 3 -> Universe \cup Special \cup BandPts [] Core = 4 -> BandPts
+\* half-plane points (10,1), (10,3) (one vertical outside the default window), (8,1), (9,2), and a few others
+WinPts == {P3(51, 50, 0 - 10), P3(55, 54, 0 - 10), P3(33, 32, 0 - 8), P3(43, 42, 0 - 9)}
+WinOthers == {P3(1, 0, 0), P3(5, 0 - 3, 0), P3(1, 1, 0), P3(1, 0 - 1, 0)}
+DefaultWindow == <<0 - 6, 6, 8>>
+Windows == IF Core = 5 THEN {<<4, 14, 8>>, <<0 - 20, 20, 12>>} ELSE {DefaultWindow}
+Pts == CASE Core = 6 -> {P3(3, 2, 2), P3(5, 3, 4)} [] Core = 5 -> WinPts \cup WinOthers [] Core = 1 -> SpecialSmall [] Core = 2 -> Special [] Core = 3 -> Universe \cup Special \cup BandPts [] Core = 4 -> BandPts
 
-Atoms == Iso!ExactAtoms
+\* Core = 6: every word of length <= MaxWord in three atoms that do not commute, on two points
+WordAtoms == {[k |-> "lox", p |-> 2, q |-> 1], [k |-> "rot", a |-> 3, b |-> 4, c |-> 5], [k |-> "refl", v |-> P3(1, 2, 0)]}
+Atoms == IF Core = 6 THEN WordAtoms ELSE Iso!ExactAtoms
+ASSUME WordAtoms \subseteq Iso!ExactAtoms
 
 T == DgWordVal(word)
 TV(vs) == [i \in 1..Len(vs) |-> DgAct(T, vs[i])]
 Range(s) == {s[i] : i \in 1..Len(s)}
 
-Init == word = <<>> /\ verts = <<>> /\ last = [a |-> "init"]
+Init == word = <<>> /\ verts = <<>> /\ last = [a |-> "init"] /\ win \in Windows
 
 AddTransform(a) ==
   /\ verts = <<>> /\ Len(word) < MaxWord
-  /\ word' = Append(word, <<"L", a>>) /\ UNCHANGED verts /\ last' = [a |-> "add_transform"]
+  /\ word' = Append(word, <<"L", a>>) /\ UNCHANGED <<verts, win>> /\ last' = [a |-> "add_transform"]
 Precompose(a) ==
   /\ verts = <<>> /\ Len(word) < MaxWord
-  /\ word' = Append(word, <<"R", a>>) /\ UNCHANGED verts /\ last' = [a |-> "precompose_transform"]
+  /\ word' = Append(word, <<"R", a>>) /\ UNCHANGED <<verts, win>> /\ last' = [a |-> "precompose_transform"]
 AddVertex(v) ==
   /\ Len(verts) < MaxVerts /\ v \notin Range(verts)
   /\ DgSmall(DgAct(T, v))
   /\ (Core = 4 /\ Len(verts) >= 2) => (BandPair(verts[1], verts[2]) /\ v \in BandThird)
-  /\ verts' = Append(verts, v) /\ UNCHANGED word /\ last' = [a |-> "add_vertex"]
+  \* custom windows: only points inside the window (half-plane), so that every scene is drawn in the half-plane
+  /\ Core = 5 => (~DgAtInf(v) => DgInWindow("halfplane", v, win))
+  /\ verts' = Append(verts, v) /\ UNCHANGED <<word, win>> /\ last' = [a |-> "add_vertex"]
 
 Next == \/ \E a \in Atoms : AddTransform(a) \/ Precompose(a)
         \/ \E v \in Pts : AddVertex(v)
@@ -73,8 +86,9 @@ Next == \/ \E a \in Atoms : AddTransform(a) \/ Precompose(a)
 NEdges(vs) == IF Len(vs) >= 3 THEN Len(vs) ELSE IF Len(vs) = 2 THEN 1 ELSE 0
 Succ(vs, i) == IF i = Len(vs) THEN 1 ELSE i + 1
 
+InWin(m, v) == DgInWindow(m, v, win)
 ModelOK(m, tv) ==
-  /\ \A i \in 1..Len(tv) : DgDefined(m, tv[i]) /\ DgInView(m, tv[i])
+  /\ \A i \in 1..Len(tv) : DgDefined(m, tv[i]) /\ InWin(m, tv[i])
   /\ \A i \in 1..NEdges(tv) : DgKindDecided(m, DgNormal(tv[i], tv[Succ(tv, i)]))
 
 ModelGeom(m, tv) ==
@@ -85,7 +99,7 @@ ModelGeom(m, tv) ==
 
 IsHoro(tv) == Len(tv) = 2 /\ DgIdeal(tv[1]) /\ ~DgIdeal(tv[2])
 HoroGeom(m, tv, w) ==
-  IF m = "klein" \/ ~IsHoro(tv) \/ ~(DgDefined(m, tv[2]) /\ DgInView(m, tv[2])) \/ (~DgAtInf(tv[1]) /\ ~DgInView(m, tv[1]))
+  IF m = "klein" \/ ~IsHoro(tv) \/ ~(DgDefined(m, tv[2]) /\ InWin(m, tv[2])) \/ (~DgAtInf(tv[1]) /\ ~InWin(m, tv[1]))
   THEN [ok |-> FALSE]
   ELSE LET h == DgHoro(m, tv[1], tv[2])
        \* a horosphere of radius >= Threshold is replaced by a horizontal line by the drawing code: outside the domain
@@ -98,7 +112,7 @@ HoroGeom(m, tv, w) ==
 VLine(tv, w) ==
   IF Len(tv) = 2 /\ w = <<>> /\ DgIdeal(tv[1]) /\ DgIdeal(tv[2]) /\ (DgAtInf(tv[1]) # DgAtInf(tv[2]))
   THEN LET f == IF DgAtInf(tv[1]) THEN tv[2] ELSE tv[1]
-       IN IF DgInView("halfplane", f) THEN [ok |-> TRUE, x |-> DgRat(DgCoord("halfplane", f))[1]] ELSE [ok |-> FALSE]
+       IN IF InWin("halfplane", f) THEN [ok |-> TRUE, x |-> DgRat(DgCoord("halfplane", f))[1]] ELSE [ok |-> FALSE]
   ELSE [ok |-> FALSE]
 
 Scene(w, vs) ==
@@ -107,11 +121,11 @@ Scene(w, vs) ==
    T |-> DgWordVal(w),
    geom |-> [m \in DrawModels |-> ModelGeom(m, tv)],
    horo |-> [m \in DrawModels |-> HoroGeom(m, tv, w)],
-   vline |-> VLine(tv, w)]
+   vline |-> VLine(tv, w), win |-> win]
 
 \* emitted once per scene (an INVARIANT: evaluated on every distinct state, and in simulation on the visited states)
 EmitScene == verts = <<>> \/ PrintT("EMIT " \o ToJson(Scene(word, verts)))
-View == <<word, verts>>
+View == <<word, verts, win>>
 
 (***************************************************************************)
 (* Theorems checked on every scene                                          *)
